@@ -16,4 +16,9 @@ INVARIANT McnkOfsPointAtNamed
 INVARIANT VersionRuleHolds
 INVARIANT OnlyNamedLoss
 INVARIANT NoGrowth
+INVARIANT StrictNoGrowth
+INVARIANT StrictMcinSize
+INVARIANT ParseNeverFails
+INVARIANT ParseKeepsSubs
+INVARIANT RebuildKeepsOpts
 CHECK_DEADLOCK FALSE
